@@ -85,6 +85,17 @@ def gen_cases(tier, seed):
             cen = [cg.dyadic(line[k] * x / nrm, 16) for x in dirn]
             basis.append(cg.shell(rng, rng.choice([0, 0, 1, 2, 3]), K=rng.randint(1, 4), M=rng.randint(1, 2), lo=0.05, hi=500.0,
                                   bits=24, cen=cen))
+        if d % 4 == 3 and len(basis) >= 3:
+            # shells 1 and 2 are placed 0.4 % inside and 0.4 % outside the documented cut-off distance to shell 0 for one of
+            # the tolerances (1e-16 .. 0.5 in turn): a cut-off computed from a clipped tolerance, a rounded logarithm or a
+            # neighbouring exponent differs from the documented one by about a per cent
+            tol_ = [t for t in TOLS if t][(d // 4) % (len(TOLS) - 1)]
+            a0 = min(cg.val(e) for e in basis[0]["exps"])
+            for k_, f_ in ((1, 0.996), (2, 1.004)):
+                ak = min(cg.val(e) for e in basis[k_]["exps"])
+                cut = math.sqrt(-math.log(tol_) * (1.0 / a0 + 1.0 / ak))
+                c0_ = [cg.val(x) for x in basis[0]["center"]]
+                basis[k_]["center"] = [cg.dyadic(c0_[i_] + f_ * cut * x / nrm * (1 if k_ == 1 else -1), 30) for i_, x in enumerate(dirn)]
         if d % 4 == 2:
             # general-contraction layout: the most diffuse primitive has a structural zero in the FIRST segment and is carried by
             # a later one -- the cut-off is set by the smallest exponent of the shell, whichever segment uses it
